@@ -3,6 +3,7 @@ from ..cfg import cfg_of
 from ..defuse import du_of, walk, peel, callee_name, fmt
 from ..conds import lits_of, success_dominates
 from ..callgraph import cg_of
+from ..roles import roles_of
 from ..common import arg_term, contains_call, call_named, field_path, ADAPTER_TRAIT, is_adapter_impl, MUTATORS
 
 TEXT = ("Ordering (must-precede / dominance) rules that replace crash-point enumeration under the property's own "
@@ -46,6 +47,7 @@ def sites_reaching_writer(facts, body, writers):
 
 
 def run(facts, res):
+    R = roles_of(facts)
     cg = cg_of(facts)
     res.rule("O1", "commit: pack write (and its success) dominates the block write; exactly two raw-write sites, none in a loop")
     res.rule("O2", "pack writer: stage / index / applied-pack mutations only after the adapter write succeeded")
@@ -185,7 +187,7 @@ def run(facts, res):
     if m is not None:
         for cb in [m] + facts.closures_of(m.path):
             for bi, t in cb.calls():
-                if t.callee is None or t.callee.name != "write_raw_item":
+                if t.callee is None or t.callee.name != R.name("raw_write"):
                     continue
                 n5 += 1
                 k = arg_term(cb, t, 1, 30)
